@@ -3,6 +3,7 @@ import MithrilModel.StmRootInj
 import MithrilModel.MmrSound
 import MithrilModel.Nested
 import MithrilModel.MkProof
+import MithrilModel.MapLink
 /-!
 # C09 — Merkle membership proofs cannot vouch for anything outside the committed set
 
@@ -177,5 +178,15 @@ theorem C09_map_sound {α : Type} (merge : α → α → α)
     (hr : p.root = eval merge t) (hT : ∀ a ∈ leaves t, ¬ IsMerge merge a) (hx : ¬ IsMerge merge x) :
     x ∈ leaves t :=
   nested_sound_leaf merge hinj p x hC t hV hr hT hx
+
+open ExprTree MkProof in
+/-- **C09(c) for the executable verifier** (the function compared with `MKMapProof::{verify,contains}` by the
+harness): what an accepted nested proof contains and is not a merge value is a committed leaf -/
+theorem C09_map_exec_sound {α : Type} [DecidableEq α] (merge : α → α → α)
+    (hinj : ∀ a b c d, merge a b = merge c d → a = c ∧ b = d)
+    (p : MapProof α) (x : α) (hv : p.verify merge = true) (hc : p.contains x = true)
+    (t : E α) (hr : p.master.root = eval merge t) (hT : ∀ a ∈ leaves t, ¬ IsMerge merge a)
+    (hx : ¬ IsMerge merge x) : x ∈ leaves t :=
+  MapLink.map_verify_contains_sound merge hinj p x hv hc t hr hT hx
 
 end C09
